@@ -102,3 +102,18 @@ c1 = contract("cisco_acl.address_base.AddressBase.__contains__", dict(self=TObj(
 c1.require("other has a network", lambda cx, self, other: z3.Not(_ipnet_of(cx, other)[0]))
 c1.may_raise("TypeError", lambda cx, self, other: _ipnet_of(cx, self)[0])
 c1.ensure("exact", lambda cx, result, self, other: S._t(result) == S.net_sub(_ipnet_of(cx, other)[1], _ipnet_of(cx, self)[1]))
+
+
+# ---------------------------------------------------------------- `in` with a grouped left operand: every member must be inside (C13, last clause)
+def _member(cx, other, j):
+    from pyvc.values import SV
+    return SV(TObj("AddressAg"), cx.get(other, "_items").a[j])
+
+
+c2 = contract("cisco_acl.address_base.AddressBase.__contains__#group", dict(self=TObj("AddressAg"), other=TObj("AddressAg")), TBool, props=("C13",),
+              ghost={"loop_var_types": {"other_ipnet": TOpt(TNet)}})
+c2.require("other is a group with members", lambda cx, self, other: z3.And(_ipnet_of(cx, other)[0], cx.get(other, "_items").n > 0))
+c2.may_raise("TypeError", None)
+c2.ensure("every member inside", lambda cx, result, self, other: S._t(result) == S.forall(
+    0, cx.get(other, "_items").n, lambda j: S.net_sub(_ipnet_of(cx, _member(cx, other, j))[1], _ipnet_of(cx, self)[1])))
+c2.loop(0, lambda cx, k, v: S.forall(0, k, lambda j: S.net_sub(_ipnet_of(cx, _member(cx, v.other, j))[1], _ipnet_of(cx, v.self)[1])))
